@@ -245,7 +245,18 @@ fn gen_ac_filter(rng: &mut Rng, kind: u64, shown: u32, frame: &[u8]) -> AcF {
         0 => None,
         1 => Some(vec![]),
         2 => {
-            let mut v: Vec<u32> = (0..rng.below(4)).map(|_| rng.below(1 << 24) as u32).collect();
+            // short lists mostly; now and then a long list (a fleet from a configuration file), in random,
+            // ascending or descending order, with the displayed address at any rank
+            let n = if rng.chance(1, 6) { 5 + rng.below(60) } else { rng.below(4) };
+            let mut v: Vec<u32> = (0..n).map(|_| rng.below(1 << 24) as u32).collect();
+            match rng.below(3) {
+                0 => v.sort(),
+                1 => {
+                    v.sort();
+                    v.reverse()
+                }
+                _ => {}
+            }
             let at = rng.below(v.len() as u64 + 1) as usize;
             v.insert(at, shown);
             Some(v)
@@ -253,7 +264,8 @@ fn gen_ac_filter(rng: &mut Rng, kind: u64, shown: u32, frame: &[u8]) -> AcF {
         3 => {
             // not containing: random and near misses (one bit off, a 25th bit set)
             let mut v = vec![];
-            for _ in 0..rng.below(4) + 1 {
+            let n = if rng.chance(1, 6) { 5 + rng.below(60) } else { rng.below(4) + 1 };
+            for _ in 0..n {
                 let c = match rng.below(4) {
                     0 => shown ^ (1 << rng.below(24)),
                     1 => shown | 0x100_0000,
